@@ -1,10 +1,47 @@
 (* props/C15.v - property C15: sponge discipline (injective padding, domain separation, exact sampling).
-   Only statements, each closed by `exact`, each followed by Print Assumptions. *)
+   Only statements, each closed by `exact`, each followed by Print Assumptions.
+   Vocabulary as in props/C02.v: states and inputs are lists of Montgomery words, canon / val relate them to field
+   values; the specification (spec/Tip5Spec.v) is on values. *)
 From Coq Require Import ZArith Bool List.
 From TF Require Import Word BFieldGen BFieldProofs Tip5Ssa Tip5Gen Tip5 Tip5Spec Tip5Proofs SpongeProofs.
 Import ListNotations.
 Open Scope Z_scope.
 
+(* ---------------------------------------------------------------- padding *)
+(* the padded input is the input followed by a single one and k zeros, k < 10 the FEWEST zeros completing a
+   multiple of the rate *)
+Theorem C15_pad_shape : forall input,
+  let k := pad_zeros (length input) in
+  pad input = input ++ bfe_one :: repeat bfe_zero k /\ (k < 10)%nat /\
+  (length (pad input) mod 10 = 0)%nat /\
+  (forall k', (k' < k)%nat -> ((length input + 1 + k') mod 10 <> 0)%nat).
+Proof. exact pad_shape. Qed.
+Print Assumptions C15_pad_shape.
+
+Theorem C15_pad_injective : forall a b, pad a = pad b -> a = b.
+Proof. exact pad_injective. Qed.
+Print Assumptions C15_pad_injective.
+
+Theorem C15_pad_values : forall input, map val (pad input) = spec_pad (map val input).
+Proof. exact pad_values. Qed.
+Print Assumptions C15_pad_values.
+
+(* Sponge::pad_and_absorb_all, for ANY sponge: never panics; absorbs the padded input in order, RATE at a time *)
+Theorem C15_pad_and_absorb_all : forall (S : Type) (ab : S -> list Z -> S) s input,
+  let cs := chunks 10 (pad input) in
+  pad_and_absorb_all S ab s input = Some (fold_left ab cs s) /\
+  Forall (fun c => length c = 10%nat) cs /\ concat cs = pad input /\ (10 * length cs = length (pad input))%nat.
+Proof. exact (@pad_and_absorb_all_spec). Qed.
+Print Assumptions C15_pad_and_absorb_all.
+
+Theorem C15_recording_sponge : forall input, exists cs,
+  recording_pad_and_absorb_all [] input = Some cs /\
+  concat cs = input ++ bfe_one :: repeat bfe_zero (pad_zeros (length input)) /\
+  Forall (fun c => length c = 10%nat) cs.
+Proof. exact recording_spec. Qed.
+Print Assumptions C15_recording_sponge.
+
+(* ---------------------------------------------------------------- domains *)
 (* fixed-length and variable-length hashing never share an initial state: the capacities differ (all ones vs all
    zeros, as field values) before anything is absorbed, while the rate parts coincide *)
 Theorem C15_domains_differ :
@@ -15,3 +52,62 @@ Theorem C15_domains_differ :
   map val (tip5_new FixedLength) = repeat 0 10 ++ repeat 1 6.
 Proof. exact domains_differ. Qed.
 Print Assumptions C15_domains_differ.
+
+(* ---------------------------------------------------------------- absorb / squeeze / hash_varlen *)
+Theorem C15_absorb : forall st chunk, Forall canon st -> Forall canon chunk ->
+  Forall canon (absorb st chunk) /\ map val (absorb st chunk) = spec_absorb (map val st) (map val chunk) /\
+  length (absorb st chunk) = 16%nat.
+Proof. exact absorb_refines. Qed.
+Print Assumptions C15_absorb.
+
+Theorem C15_squeeze : forall st, Forall canon st ->
+  let '(out, st') := squeeze st in
+  Forall canon out /\ Forall canon st' /\ length st' = 16%nat /\
+  (map val out, map val st') = spec_squeeze (map val st).
+Proof. exact squeeze_refines. Qed.
+Print Assumptions C15_squeeze.
+
+Theorem C15_hash_varlen : forall input, Forall canon input ->
+  exists d, hash_varlen input = Some d /\ Forall canon d /\ map val d = spec_hash_varlen (map val input) /\
+            length d = 5%nat.
+Proof. exact hash_varlen_spec. Qed.
+Print Assumptions C15_hash_varlen.
+Example C15_hash_varlen_hyp : Forall canon (map bfe_new [0; 1; 18446744069414584320]).
+Proof. repeat (apply Forall_cons; [vm_compute; split; congruence|]). apply Forall_nil. Qed.
+
+(* ---------------------------------------------------------------- index sampling *)
+(* whenever sample_indices returns (any fuel): the indices are, in order, the low 32 bits modulo the bound of the
+   squeezed elements skipping exactly those equal to p - 1; exactly n of them; the sponge is left after k squeezes,
+   k the FEWEST number of squeezes that supply n accepted elements *)
+Theorem C15_sample_indices : forall dbg fuel st ub n idx st', Forall canon st ->
+  sample_indices dbg fuel st ub n = Ok (idx, st') ->
+  exists k, (idx, map val st') = spec_sample_indices k (map val st) ub n /\
+            Forall canon st' /\ length idx = n /\
+            enough_squeezes k (map val st) n = true /\
+            (forall k', (k' < k)%nat -> enough_squeezes k' (map val st) n = false).
+Proof. exact sample_indices_spec. Qed.
+Print Assumptions C15_sample_indices.
+
+(* and it does return (no panic, fuel not exhausted) as soon as some number k of squeezes supplies n accepted
+   elements and the fuel covers their 10k elements; the bound must be non-zero, and a power of two when debug
+   assertions are on *)
+Theorem C15_sample_indices_total : forall dbg fuel st ub n k, Forall canon st -> length st = 16%nat -> ub <> 0 ->
+  dbg && negb (is_pow2 ub) = false ->
+  enough_squeezes k (map val st) n = true -> (10 * k <= fuel)%nat ->
+  exists idx st', sample_indices dbg fuel st ub n = Ok (idx, st').
+Proof. exact sample_indices_total. Qed.
+Print Assumptions C15_sample_indices_total.
+Example C15_sample_indices_total_hyp :
+  enough_squeezes 2 (map val tip5_init) 12 = true /\ enough_squeezes 1 (map val tip5_init) 12 = false.
+Proof. vm_compute. split; reflexivity. Qed.
+
+(* ---------------------------------------------------------------- scalar sampling *)
+(* never panics; ceil(3n/10) squeezes; successive squeezed elements in groups of three; final state after exactly
+   those squeezes *)
+Theorem C15_sample_scalars : forall st n, Forall canon st -> length st = 16%nat ->
+  exists xs st', sample_scalars st n = Ok (xs, st') /\
+    (map (map val) xs, map val st') = spec_sample_scalars (map val st) n /\
+    Forall canon st' /\ length xs = n /\
+    st' = snd (squeeze_n ((3 * n + 9) / 10) st).
+Proof. exact sample_scalars_spec. Qed.
+Print Assumptions C15_sample_scalars.
